@@ -155,6 +155,30 @@ class _Helper:
             return b[0].value
         return None
 
+    def membership_fallback(self):
+        """`try: return x in S` / `except TypeError: return x in L` (x, S, L parameters): (x, S, L), else None.
+        With S a hashed copy of L this is `x in L` (the set is only a faster way to the same answer; an
+        unhashable x takes the list test)"""
+        b = self.body()
+        if len(b) != 1 or not isinstance(b[0], ast.Try) or b[0].orelse or b[0].finalbody or len(b[0].handlers) != 1:
+            return None
+        t = b[0]
+        h = t.handlers[0]
+        if not (isinstance(h.type, ast.Name) and h.type.id == "TypeError") or len(t.body) != 1 or len(h.body) != 1:
+            return None
+        ra, rb = t.body[0], h.body[0]
+
+        def memb(r):
+            if isinstance(r, ast.Return) and isinstance(r.value, ast.Compare) and len(r.value.ops) == 1 and \
+                    isinstance(r.value.ops[0], ast.In) and isinstance(r.value.left, ast.Name) and \
+                    isinstance(r.value.comparators[0], ast.Name):
+                return r.value.left.id, r.value.comparators[0].id
+            return None
+        a, c = memb(ra), memb(rb)
+        if a and c and a[0] == c[0] and {a[0], a[1], c[1]} <= set(self.params) and len({a[0], a[1], c[1]}) == 3:
+            return a[0], a[1], c[1]
+        return None
+
 
 class _SubstNames(ast.NodeTransformer):
     def __init__(self, mapping, renames):
@@ -412,6 +436,25 @@ class _Expander:
         return (isinstance(f, ast.Attribute) and isinstance(f.value, ast.Name) and f.value.id == "self"
                 and parts is not None and len(parts) == 2 and parts[0] == h.cls_node.name)
 
+    def _hashed_copy(self, s_arg, l_arg):
+        """is `s_arg` a module constant bound once to frozenset(<l_arg>) / set(<l_arg>) ?"""
+        if s_arg is None or l_arg is None:
+            return False
+        last = lambda e: e.attr if isinstance(e, ast.Attribute) else (e.id if isinstance(e, ast.Name) else None)
+        sn, ln = last(s_arg), last(l_arg)
+        if not sn or not ln:
+            return False
+        defs = []
+        for tree in self.trees.values():
+            for st in tree.body:
+                if isinstance(st, ast.Assign) and len(st.targets) == 1 and isinstance(st.targets[0], ast.Name) and st.targets[0].id == sn:
+                    defs.append(st.value)
+        if len(defs) != 1:
+            return False
+        v = defs[0]
+        return isinstance(v, ast.Call) and isinstance(v.func, ast.Name) and v.func.id in ("frozenset", "set") and \
+            len(v.args) == 1 and not v.keywords and last(v.args[0]) == ln
+
     def _caller_names(self, fn):
         names = set(alpha.params_of(fn))
         for n in _own(fn, ast.Name):
@@ -439,7 +482,22 @@ class _Expander:
                         return c
                     e = h.single_expression()
                     if e is None:
-                        return c
+                        mf = h.membership_fallback()
+                        if mf is None:
+                            return c
+                        # positional binding is enough here: x is evaluated once before the test in the helper and
+                        # once in `x in L`, the two collection arguments are stable names
+                        ps = [p_ for p_ in h.params if not (h.is_method and not h.static and p_ in ("self", "cls"))]
+                        if c.keywords or len(c.args) != len(ps) or any(isinstance(a_, ast.Starred) for a_ in c.args):
+                            return c
+                        mapping = dict(zip(ps, c.args))
+                        if not (_stable(mapping[mf[1]]) and _stable(mapping[mf[2]])) or \
+                                not exp._hashed_copy(mapping.get(mf[1]), mapping.get(mf[2])):
+                            return c
+                        nonlocal_changed[0] = True
+                        exp._count(h, True)
+                        return ast.copy_location(ast.Compare(left=copy.deepcopy(mapping[mf[0]]), ops=[ast.In()],
+                                                             comparators=[copy.deepcopy(mapping[mf[2]])]), c)
                     try:
                         mapping, prologue, renames = exp._bind(h, c, names)
                     except _CannotExpand:
